@@ -420,8 +420,20 @@ func init() {
 		for r := 0; r < rounds*4; r++ {
 			op := Op{K: "fixeds", CW: []int{1, 2, 4}[g.r.Intn(3)], N: g.r.Intn(12), Pad: pads[g.r.Intn(len(pads))], Left: g.r.Intn(2) == 0, E: g.endian()}
 			v := g.opVal(op, false, 0)
+			if r%2 == 0 && len(v.Ss) >= 2 { // a longer element followed by a shorter one (a reused scratch field would show)
+				v.Ss[0] = g.bytes(op.N, byte(op.Pad))
+				v.Ss[1] = g.bytes(op.N/3, 'x')
+			}
 			w := corrWop(o, op, "", false, v, nil, g.mode())
 			if w.Class == "ok" {
+				want, _ := prefixed(op.CW, op.E, len(v.Ss), nil)
+				for _, e := range v.Ss {
+					want = append(want, padOrCut(op.N, byte(op.Pad), op.Left, e)...)
+				}
+				if !bytes.Equal(w.Appended, want) {
+					o.violate(Violation{Property: "C13", Kind: "direct", What: "a list of fixed-width text is not the count followed by each element padded/cut to N bytes",
+						Case: "wop " + opTokens(op) + " " + v.String(), Expected: hexOf(want), Observed: hexOf(w.Appended), Key: "listbytes"})
+				}
 				corrRop(o, op, "", false, append(append([]byte{}, w.Appended...), g.prefix()...), g.mode())
 			}
 		}
